@@ -63,14 +63,19 @@ def rows_for(system, carts, d):
     return out
 
 
-def make_operand(kind, system, rows, momentum, spelling="generic", extra=False, alt=0, index=0):
-    """operand of the requested kind; single-vector kinds use rows[index]"""
+def make_operand(kind, system, rows, momentum, spelling="generic", extra=False, alt=0, index=0, dtype=None):
+    """operand of the requested kind; single-vector kinds use rows[index]; dtype 'i64' stores (integer-valued) rows in
+    int64 columns on the array kinds"""
     if kind == "object":
         return mpbackend.make(system, rows[index], momentum, False)
+    dt = numpy.float64
+    if dtype == "i64":
+        rows = [tuple(float(round(x)) for x in r) for r in rows]
+        dt = numpy.int64
     if kind == "record":
-        flat = build.ak_flat(system, rows, momentum, spelling, None, alt)
+        flat = build.ak_flat(system, rows, momentum, spelling, None, alt, dtype=dt)
         return flat[index]
-    return build.build_layout(kind, system, rows, momentum, spelling, extra, alt)
+    return build.build_layout(kind, system, rows, momentum, spelling, extra, alt, dtype=dt)
 
 
 def scalar_args(op, elems, form, kind):
@@ -122,7 +127,7 @@ def evaluate(cfg, elems, want_ref=True, before=None):
     skipped (reason) | exc (exception of the array call) | result, kind, operands (a, b),
     ref (list per present element of read_result tuples or ('exc', e)), present (indices)"""
     o = Obs()
-    op = OPS[cfg["op"]]
+    op = catalog.get(cfg["op"])
     da, db = cfg["da"], cfg["db"]
     sa = opcheck.parse_system(cfg["sa"])
     sb = opcheck.parse_system(cfg["sb"]) if cfg.get("sb") else None
@@ -146,10 +151,10 @@ def evaluate(cfg, elems, want_ref=True, before=None):
             o.pre.append(False)
     sp_a = cfg.get("spa", "generic")
     sp_b = cfg.get("spb", "generic")
-    A = make_operand(ka, sa, rows_a, ma, sp_a, cfg.get("extra", False), cfg.get("alt", 0))
+    A = make_operand(ka, sa, rows_a, ma, sp_a, cfg.get("extra", False), cfg.get("alt", 0), dtype=cfg.get("dtype_a"))
     B = None
     if db:
-        B = make_operand(kb, sb, rows_b, mb, sp_b, False, cfg.get("alt", 0))
+        B = make_operand(kb, sb, rows_b, mb, sp_b, False, cfg.get("alt", 0), dtype=cfg.get("dtype_b"))
     lead = ka if ka in ARRAY_KINDS else (kb if kb in ARRAY_KINDS else ka)
     sc, per_elem = scalar_args(op, elems, cfg.get("scal", "py"), lead)
     o.A, o.B, o.sc, o.rows_a, o.rows_b, o.per_elem = A, B, sc, rows_a, rows_b, per_elem
